@@ -1030,7 +1030,7 @@ Proof.
   unfold write_nop in H.
   destruct (a =? 0); [discriminate|].
   destruct (dbg && negb (N.land a (a - 1) =? 0)); [discriminate|].
-  destruct (dbg && (wrap64 L =? 0)); [discriminate|].
+  destruct (dbg && (L =? 0)); [discriminate|].
   injection H as <-.
   rewrite (land_pow2m1 a _ Hc). unfold wrap64, two64, len.
   rewrite repeat_length, N2Nat.id.
@@ -1244,4 +1244,392 @@ Proof.
   revert loc. induction ms as [|m r IH]; intros loc.
   - cbn [app]. induction n as [|n IHn]; [reflexivity|]. cbn [repeat map sem locate]. exact IHn.
   - destruct m; cbn [app locate]; rewrite IH; reflexivity.
+Qed.
+(* ------------------------------------------------------------------ *)
+(* 7. CIE identity: cie_eqb is equality; add_cie de-duplicates          *)
+(* ------------------------------------------------------------------ *)
+
+Lemma bytes_eq_iff a b : bytes_eq a b = true <-> a = b.
+Proof.
+  unfold bytes_eq, bytes_eqb. destruct (list_eq_dec Byte.byte_eq_dec a b); split; intros; congruence.
+Qed.
+
+Lemma cfi_eqb_iff a b : cfi_eqb a b = true <-> a = b.
+Proof.
+  split.
+  - destruct a, b; cbn [cfi_eqb]; intros H; try discriminate; try reflexivity;
+      repeat match goal with Hx : _ && _ = true |- _ => apply andb_true_iff in Hx; destruct Hx end;
+      repeat match goal with
+             | Hx : (_ =? _) = true |- _ => apply N.eqb_eq in Hx
+             | Hx : (_ =? _)%Z = true |- _ => apply Z.eqb_eq in Hx
+             | Hx : bytes_eq _ _ = true |- _ => apply bytes_eq_iff in Hx
+             end; subst; reflexivity.
+  - intros <-. destruct a; cbn [cfi_eqb]; try reflexivity;
+      repeat (apply andb_true_iff; split);
+      try apply N.eqb_refl; try apply Z.eqb_refl; try (apply bytes_eq_iff; reflexivity).
+Qed.
+
+Lemma cfis_eqb_iff : forall a b, cfis_eqb a b = true <-> a = b.
+Proof.
+  induction a as [|x r IH]; intros [|y s]; cbn [cfis_eqb]; split; intros H; try discriminate; try reflexivity.
+  - apply andb_true_iff in H. destruct H as [H1 H2]. apply cfi_eqb_iff in H1. apply IH in H2. congruence.
+  - injection H as -> ->. apply andb_true_iff. split; [apply cfi_eqb_iff|apply IH]; reflexivity.
+Qed.
+
+Lemma addr_eqb_iff a b : addr_eqb a b = true <-> a = b.
+Proof.
+  split.
+  - destruct a, b; cbn [addr_eqb]; intros H; try discriminate.
+    + apply N.eqb_eq in H. congruence.
+    + apply andb_true_iff in H. destruct H as [H1 H2]. apply N.eqb_eq in H1. apply Z.eqb_eq in H2. congruence.
+  - intros <-. destruct a; cbn [addr_eqb]; [apply N.eqb_refl|].
+    apply andb_true_iff. split; [apply N.eqb_refl|apply Z.eqb_refl].
+Qed.
+
+Lemma opt_eqb_iff {A} (eqb : A -> A -> bool) :
+  (forall x y, eqb x y = true <-> x = y) -> forall a b, opt_eqb eqb a b = true <-> a = b.
+Proof.
+  intros He [x|] [y|]; cbn [opt_eqb]; split; intros H; try discriminate; try reflexivity.
+  - apply He in H. congruence.
+  - injection H as ->. apply He. reflexivity.
+Qed.
+
+Lemma pers_eqb_iff (p q : N * addr) : ((fst p =? fst q) && addr_eqb (snd p) (snd q)) = true <-> p = q.
+Proof.
+  destruct p as [e a], q as [e' a']; cbn [fst snd]. rewrite andb_true_iff, N.eqb_eq, addr_eqb_iff.
+  split; [intros [-> ->]; reflexivity|intros H; injection H as -> ->; auto].
+Qed.
+
+Lemma bool_eqb_iff a b : Bool.eqb a b = true <-> a = b.
+Proof. destruct a, b; cbn; split; intros; congruence. Qed.
+
+Lemma cie_eqb_iff a b : cie_eqb a b = true <-> a = b.
+Proof.
+  destruct a as [f1 v1 s1 c1 d1 r1 p1 l1 e1 g1 i1], b as [f2 v2 s2 c2 d2 r2 p2 l2 e2 g2 i2].
+  unfold cie_eqb. cbn [c_fmt64 c_version c_asize c_caf c_daf c_ra c_pers c_lsda_enc c_fde_enc c_sig c_insns].
+  rewrite !andb_true_iff, !bool_eqb_iff, !N.eqb_eq, Z.eqb_eq, cfis_eqb_iff.
+  rewrite (opt_eqb_iff _ pers_eqb_iff), (opt_eqb_iff N.eqb N.eqb_eq).
+  split.
+  - intros H. decompose [and] H. subst. reflexivity.
+  - intros H. injection H as -> -> -> -> -> -> -> -> -> -> ->. repeat split.
+Qed.
+
+Lemma find_cie_some c : forall l i k, find_cie c l i = Some k ->
+  exists j, k = (i + j)%nat /\ nth_error l j = Some c.
+Proof.
+  induction l as [|x r IH]; intros i k H; cbn [find_cie] in H; [discriminate|].
+  destruct (cie_eqb x c) eqn:E.
+  - injection H as <-. apply cie_eqb_iff in E. subst x. exists O. split; [lia|reflexivity].
+  - destruct (IH _ _ H) as (j & -> & Hj). exists (S j). split; [lia|exact Hj].
+Qed.
+
+Lemma find_cie_none c : forall l i, find_cie c l i = None -> ~ In c l.
+Proof.
+  induction l as [|x r IH]; intros i H; cbn [find_cie] in H; [intros []|].
+  destruct (cie_eqb x c) eqn:E; [discriminate|].
+  intros [->|Hin]; [|exact (IH _ H Hin)].
+  assert (cie_eqb c c = true) by (apply cie_eqb_iff; reflexivity). congruence.
+Qed.
+
+Lemma NoDup_snoc {A} (l : list A) (x : A) : NoDup l -> ~ In x l -> NoDup (l ++ [x]).
+Proof.
+  intros Hnd Hx. induction Hnd as [|y l Hy Hl IH]; cbn [app].
+  - constructor; [intros []|constructor].
+  - constructor.
+    + rewrite in_app_iff. intros [H|[H|[]]]; [exact (Hy H)|]. subst. apply Hx. left. reflexivity.
+    + apply IH. intros H. apply Hx. right. exact H.
+Qed.
+
+Lemma add_cie_spec t c t' id :
+  NoDup (t_cies t) -> add_cie t c = (t', id) ->
+  NoDup (t_cies t') /\ nth_error (t_cies t') id = Some c /\
+  (exists ext, t_cies t' = t_cies t ++ ext) /\ t_fdes t' = t_fdes t.
+Proof.
+  intros Hnd H. unfold add_cie in H.
+  destruct (find_cie c (t_cies t) 0) as [i|] eqn:E.
+  - injection H as <- <-. destruct (find_cie_some c _ _ _ E) as (j & -> & Hj).
+    split; [exact Hnd|]. split; [exact Hj|]. split; [exists []; now rewrite app_nil_r|reflexivity].
+  - injection H as <- <-. cbn [t_cies t_fdes]. apply find_cie_none in E.
+    split.
+    + apply NoDup_snoc; assumption.
+    + split.
+      * rewrite nth_error_app2 by lia. rewrite Nat.sub_diag. reflexivity.
+      * split; [exists [c]; reflexivity|reflexivity].
+Qed.
+(* ------------------------------------------------------------------ *)
+(* 8. ids returned by add_cie; the table is written as tiles in plan order *)
+(* ------------------------------------------------------------------ *)
+
+Fixpoint cies_of (ops : list bop) : list cie :=
+  match ops with
+  | [] => []
+  | BAddCie c :: r => c :: cies_of r
+  | BAddFde _ _ :: r => cies_of r
+  end.
+
+Lemma Forall2_nth {A B} (R : A -> B -> Prop) : forall l1 l2 j a b,
+  Forall2 R l1 l2 -> nth_error l1 j = Some a -> nth_error l2 j = Some b -> R a b.
+Proof.
+  intros l1 l2 j a b H. revert j. induction H as [|x y l1 l2 Hxy H IH]; intros j Ha Hb.
+  - destruct j; discriminate.
+  - destruct j as [|j]; cbn [nth_error] in *; [congruence|]. eapply IH; eassumption.
+Qed.
+
+Lemma Forall2_snoc {A B} (R : A -> B -> Prop) l1 l2 a b :
+  Forall2 R l1 l2 -> R a b -> Forall2 R (l1 ++ [a]) (l2 ++ [b]).
+Proof. intros H Hab. apply Forall2_app; [exact H|constructor; [exact Hab|constructor]]. Qed.
+
+Lemma Forall2_weaken {A B} (R S : A -> B -> Prop) l1 l2 :
+  (forall a b, R a b -> S a b) -> Forall2 R l1 l2 -> Forall2 S l1 l2.
+Proof. intros HI H. induction H; constructor; auto. Qed.
+
+Lemma nth_error_ext {A} (l ext : list A) i x : nth_error l i = Some x -> nth_error (l ++ ext) i = Some x.
+Proof.
+  intros H. rewrite nth_error_app1; [exact H|]. apply nth_error_Some. congruence.
+Qed.
+
+Lemma build_ids dbg : forall ops t ids t' ids' (cs0 : list cie),
+  NoDup (t_cies t) -> Forall2 (fun c id => nth_error (t_cies t) id = Some c) cs0 ids ->
+  build dbg t ids ops = Ok (t', ids') ->
+  NoDup (t_cies t') /\ Forall2 (fun c id => nth_error (t_cies t') id = Some c) (cs0 ++ cies_of ops) ids'.
+Proof.
+  induction ops as [|op r IH]; intros t ids t' ids' cs0 Hnd Hf H.
+  - cbn [build] in H. injection H as <- <-. cbn [cies_of]. rewrite app_nil_r. auto.
+  - destruct op as [c|k f]; cbn [build cies_of] in H |- *.
+    + destruct (add_cie t c) as [t1 id] eqn:Ea.
+      destruct (add_cie_spec t c t1 id Hnd Ea) as (Hnd1 & Hid & (ext & Hext) & _).
+      replace (cs0 ++ c :: cies_of r) with ((cs0 ++ [c]) ++ cies_of r) by (rewrite <- app_assoc; reflexivity).
+      apply (IH t1 (ids ++ [id]) t' ids' (cs0 ++ [c]) Hnd1); [|exact H].
+      apply Forall2_snoc; [|exact Hid].
+      eapply Forall2_weaken; [|exact Hf]. intros a b Hab. cbn beta in *. rewrite Hext. apply nth_error_ext. exact Hab.
+    + destruct (nth_error ids k) as [id|]; [|discriminate].
+      destruct (fde_add_instructions dbg _ (f_insns f)) as [f'| | |]; try discriminate.
+      cbn [bind] in H. apply (IH (add_fde t id f') ids t' ids' cs0); [exact Hnd|exact Hf|exact H].
+Qed.
+
+Lemma build_ids_equal_iff dbg ops t ids j k cj ck idj idk :
+  build dbg empty_table [] ops = Ok (t, ids) ->
+  nth_error (cies_of ops) j = Some cj -> nth_error (cies_of ops) k = Some ck ->
+  nth_error ids j = Some idj -> nth_error ids k = Some idk ->
+  (idj = idk <-> cj = ck).
+Proof.
+  intros H Hcj Hck Hij Hik.
+  destruct (build_ids dbg ops empty_table [] t ids []) as [Hnd Hf]; [constructor|constructor|exact H|].
+  cbn [app] in Hf.
+  pose proof (Forall2_nth _ _ _ j cj idj Hf Hcj Hij) as Hj. cbn beta in Hj.
+  pose proof (Forall2_nth _ _ _ k ck idk Hf Hck Hik) as Hk. cbn beta in Hk.
+  split.
+  - intros ->. congruence.
+  - intros ->. rewrite NoDup_nth_error in Hnd. apply Hnd; [|congruence].
+    apply nth_error_Some. congruence.
+Qed.
+
+(* ---- emission ---- *)
+Fixpoint lookup (idx : nat) (pl : list (nat * N)) : option N :=
+  match pl with
+  | [] => None
+  | (i, o) :: r => if Nat.eqb idx i then Some o else lookup idx r
+  end.
+
+Section Tiled.
+  Variables (dbg be eh : bool) (cies : list cie) (fdes : list (nat * fde)).
+  (* chunks laid out from section offset pos; placed = the CIE tiles laid out so far with their offsets.
+     A CIE tile is that CIE written at its own offset; an FDE tile is that FDE written at its own offset
+     with the offset of its CIE's tile as CIE pointer. *)
+  Fixpoint well_tiled (pos : N) (placed : list (nat * N)) (chunks : list (item * list byte)) : Prop :=
+    match chunks with
+    | [] => True
+    | (ICie idx, b) :: r =>
+        (exists c, nth_error cies idx = Some c /\ cie_write dbg be eh pos c = Ok b)
+        /\ well_tiled (pos + len b) ((idx, pos) :: placed) r
+    | (IFde k, b) :: r =>
+        (exists idx f c coff, nth_error fdes k = Some (idx, f) /\ nth_error cies idx = Some c /\
+                              lookup idx placed = Some coff /\ fde_write dbg be eh pos coff c f = Ok b)
+        /\ well_tiled (pos + len b) placed r
+    end.
+End Tiled.
+
+Lemma lookup_existsb idx placed :
+  existsb (Nat.eqb idx) (map fst placed) = is_some (lookup idx placed).
+Proof.
+  induction placed as [|[i o] r IH]; [reflexivity|].
+  cbn [map fst existsb lookup]. destruct (Nat.eqb idx i); [reflexivity|exact IH].
+Qed.
+
+Lemma nth_error_set_nth {A} : forall (l : list A) n x j,
+  (n < length l)%nat ->
+  nth_error (set_nth l n x) j = if Nat.eqb j n then Some x else nth_error l j.
+Proof.
+  induction l as [|y r IH]; intros n x j Hn; [cbn in Hn; lia|].
+  destruct n as [|n]; destruct j as [|j]; cbn [set_nth nth_error Nat.eqb]; try reflexivity.
+  apply IH. cbn [length] in Hn. lia.
+Qed.
+
+Lemma set_nth_length {A} : forall (l : list A) n x, length (set_nth l n x) = length l.
+Proof.
+  induction l as [|y r IH]; intros n x; [reflexivity|].
+  destruct n; cbn [set_nth length]; [reflexivity|]. now rewrite IH.
+Qed.
+
+Lemma unwrap_ok {A} (o : option A) a : unwrap o = Ok a -> o = Some a.
+Proof. destruct o; cbn; intros H; [injection H as ->; reflexivity|discriminate]. Qed.
+
+Lemma len_nil : len [] = 0.
+Proof. reflexivity. Qed.
+
+Lemma write_fdes_tiled dbg be eh cies full : forall fdes pre offs pos placed bs,
+  full = pre ++ fdes ->
+  length offs = length cies ->
+  (forall idx, (idx < length cies)%nat -> nth_error offs idx = Some (lookup idx placed)) ->
+  write_fdes dbg be eh cies offs pos fdes = Ok bs ->
+  exists chunks,
+    map fst chunks = plan (map fst placed) (length pre) (map fst fdes) /\
+    bs = concat (map snd chunks) /\
+    well_tiled dbg be eh cies full pos placed chunks.
+Proof.
+  induction fdes as [|[idx f] rest IH]; intros pre offs pos placed bs Hfull Hlen Hoffs H.
+  - cbn [write_fdes] in H. injection H as <-. exists []. repeat split.
+  - cbn [write_fdes] in H.
+    apply bind_ok_inv in H. destruct H as (c & Hc & H). apply unwrap_ok in Hc.
+    assert (Hidx : (idx < length cies)%nat) by (apply nth_error_Some; congruence).
+    apply bind_ok_inv in H. destruct H as (slot & Hslot & H). apply unwrap_ok in Hslot.
+    rewrite (Hoffs idx Hidx) in Hslot. injection Hslot as Hslot.
+    assert (Hk : nth_error full (length pre) = Some (idx, f)).
+    { rewrite Hfull, nth_error_app2 by lia. rewrite Nat.sub_diag. reflexivity. }
+    assert (Hfull' : full = (pre ++ [(idx, f)]) ++ rest) by (rewrite <- app_assoc; exact Hfull).
+    assert (Hpre' : length (pre ++ [(idx, f)]) = S (length pre)) by (rewrite app_length; cbn [length]; lia).
+    destruct slot as [off|].
+    + (* CIE already written *)
+      cbn [bind] in H. rewrite len_nil, N.add_0_r in H.
+      apply bind_ok_inv in H. destruct H as (fb & Hfb & H).
+      apply bind_ok_inv in H. destruct H as (r & Hr & H). injection H as <-.
+      destruct (IH (pre ++ [(idx, f)]) offs (pos + len fb) placed r Hfull' Hlen Hoffs Hr)
+        as (chunks & Hplan & Hbs & Htiled).
+      exists ((IFde (length pre), fb) :: chunks). split; [|split].
+      * cbn [map fst plan]. rewrite lookup_existsb, Hslot. cbn [is_some].
+        rewrite Hplan, Hpre'. reflexivity.
+      * cbn [map snd concat app]. now rewrite Hbs.
+      * cbn [well_tiled]. split; [|exact Htiled].
+        exists idx, f, c, off. auto.
+    + (* first reference: the CIE is written here *)
+      apply bind_ok_inv in H. destruct H as ([[cb coff] offs'] & Hcb & H).
+      apply bind_ok_inv in Hcb. destruct Hcb as (cb' & Hcie & Hcb). injection Hcb as <- <- <-.
+      apply bind_ok_inv in H. destruct H as (fb & Hfb & H).
+      apply bind_ok_inv in H. destruct H as (r & Hr & H). injection H as <-.
+      assert (Hlen' : length (set_nth offs idx (Some pos)) = length cies) by (now rewrite set_nth_length).
+      assert (Hoffs' : forall j, (j < length cies)%nat ->
+                nth_error (set_nth offs idx (Some pos)) j = Some (lookup j ((idx, pos) :: placed))).
+      { intros j Hj. rewrite nth_error_set_nth by lia. cbn [lookup].
+        destruct (Nat.eqb j idx); [reflexivity|]. apply Hoffs. exact Hj. }
+      destruct (IH (pre ++ [(idx, f)]) _ (pos + len cb' + len fb) ((idx, pos) :: placed) r Hfull' Hlen' Hoffs' Hr)
+        as (chunks & Hplan & Hbs & Htiled).
+      exists ((ICie idx, cb') :: (IFde (length pre), fb) :: chunks). split; [|split].
+      * cbn [map fst plan]. rewrite lookup_existsb, Hslot. cbn [is_some].
+        cbn [map fst] in Hplan. rewrite Hplan, Hpre'. reflexivity.
+      * cbn [map snd concat]. now rewrite Hbs.
+      * cbn [well_tiled]. split; [exists c; auto|]. split; [|exact Htiled].
+        exists idx, f, c, pos. cbn [lookup]. rewrite Nat.eqb_refl. auto.
+Qed.
+
+Lemma nth_error_repeat_lt {A} (x : A) n i : (i < n)%nat -> nth_error (repeat x n) i = Some x.
+Proof.
+  revert i. induction n as [|n IH]; intros i Hi; [lia|].
+  destruct i; cbn [repeat nth_error]; [reflexivity|]. apply IH. lia.
+Qed.
+
+Lemma write_table_tiled dbg be eh pos t bs :
+  write_table dbg be eh pos t = Ok bs ->
+  exists chunks,
+    map fst chunks = plan [] 0 (map fst (t_fdes t)) /\
+    bs = concat (map snd chunks) /\
+    well_tiled dbg be eh (t_cies t) (t_fdes t) pos [] chunks.
+Proof.
+  intros H. unfold write_table in H.
+  apply (write_fdes_tiled dbg be eh (t_cies t) (t_fdes t) (t_fdes t) []
+           (repeat None (length (t_cies t))) pos [] bs).
+  - reflexivity.
+  - apply repeat_length.
+  - intros idx Hidx. cbn [lookup]. apply nth_error_repeat_lt. exact Hidx.
+  - exact H.
+Qed.
+
+(* ---- combinatorics of the plan ---- *)
+Fixpoint cie_items (l : list item) : list nat :=
+  match l with [] => [] | ICie i :: r => i :: cie_items r | IFde _ :: r => cie_items r end.
+Fixpoint fde_items (l : list item) : list nat :=
+  match l with [] => [] | ICie _ :: r => fde_items r | IFde k :: r => k :: fde_items r end.
+
+Lemma existsb_eqb_in idx seen : existsb (Nat.eqb idx) seen = true <-> In idx seen.
+Proof.
+  rewrite existsb_exists. split.
+  - intros (x & Hx & He). apply Nat.eqb_eq in He. now subst.
+  - intros H. exists idx. split; [exact H|apply Nat.eqb_refl].
+Qed.
+
+Lemma plan_fdes : forall refs seen k, fde_items (plan seen k refs) = seq k (length refs).
+Proof.
+  induction refs as [|idx r IH]; intros seen k; [reflexivity|].
+  cbn [plan length seq]. destruct (existsb (Nat.eqb idx) seen); cbn [fde_items]; now rewrite IH.
+Qed.
+
+Lemma plan_cies : forall refs seen k,
+  NoDup (cie_items (plan seen k refs)) /\
+  (forall idx, In idx (cie_items (plan seen k refs)) <-> (In idx refs /\ ~ In idx seen)).
+Proof.
+  induction refs as [|idx r IH]; intros seen k.
+  - cbn [plan cie_items]. split; [constructor|]. intros i. cbn [In]. tauto.
+  - cbn [plan].
+    destruct (existsb (Nat.eqb idx) seen) eqn:E.
+    + destruct (IH seen (S k)) as [Hnd Hin].
+      apply existsb_eqb_in in E. cbn [cie_items]. split; [exact Hnd|].
+      intros i. rewrite Hin. cbn [In]. split.
+      * intros [H1 H2]. tauto.
+      * intros [[->|H1] H2]; [contradiction|]. tauto.
+    + destruct (IH (idx :: seen) (S k)) as [Hnd Hin].
+      assert (Hn : ~ In idx seen). { rewrite <- existsb_eqb_in. congruence. }
+      cbn [cie_items]. split.
+      * constructor; [|exact Hnd]. rewrite Hin. cbn [In]. tauto.
+      * intros i. cbn [In]. rewrite Hin. cbn [In]. split.
+        -- intros [<-|[H1 H2]]; [tauto|]. split; [tauto|]. intros H3. apply H2. right. exact H3.
+        -- intros [[->|H1] H2]; [left; reflexivity|].
+           destruct (Nat.eq_dec idx i) as [->|Hne]; [left; reflexivity|].
+           right. split; [exact H1|]. intros [H3|H3]; contradiction.
+Qed.
+
+Lemma in_fde_items_app a j b : In j (fde_items (a ++ IFde j :: b)).
+Proof.
+  induction a as [|y a IHa]; cbn [app fde_items]; [left; reflexivity|].
+  destruct y; cbn [fde_items]; [exact IHa|right; exact IHa].
+Qed.
+
+(* every FDE item is preceded by the item of its CIE (or the CIE was emitted before the plan started) *)
+Lemma plan_cie_before_fde : forall refs seen k a j b idx,
+  plan seen k refs = a ++ IFde j :: b -> nth_error refs (j - k) = Some idx -> (k <= j)%nat ->
+  In idx seen \/ In (ICie idx) a.
+Proof.
+  induction refs as [|i r IH]; intros seen k a j b idx Hp Hn Hkj.
+  - cbn [plan] in Hp. destruct a; discriminate.
+  - cbn [plan] in Hp.
+    destruct (existsb (Nat.eqb i) seen) eqn:E.
+    + destruct a as [|x a'].
+      * cbn [app] in Hp. injection Hp as <- _. rewrite Nat.sub_diag in Hn. cbn [nth_error] in Hn.
+        injection Hn as <-. left. apply existsb_eqb_in. exact E.
+      * cbn [app] in Hp. injection Hp as <- Hp.
+        assert (Hj : (S k <= j)%nat).
+        { pose proof (in_fde_items_app a' j b) as H. rewrite <- Hp, plan_fdes in H. apply in_seq in H. lia. }
+        replace (j - k)%nat with (S (j - S k)) in Hn by lia. cbn [nth_error] in Hn.
+        destruct (IH seen (S k) a' j b idx Hp Hn Hj) as [H|H]; [left; exact H|right; right; exact H].
+    + destruct a as [|x a']; [cbn [app] in Hp; discriminate|].
+      cbn [app] in Hp. injection Hp as <- Hp.
+      destruct a' as [|y a''].
+      * cbn [app] in Hp. injection Hp as <- _. rewrite Nat.sub_diag in Hn. cbn [nth_error] in Hn.
+        injection Hn as <-. right. left. reflexivity.
+      * cbn [app] in Hp. injection Hp as <- Hp.
+        assert (Hj : (S k <= j)%nat).
+        { pose proof (in_fde_items_app a'' j b) as H. rewrite <- Hp, plan_fdes in H. apply in_seq in H. lia. }
+        replace (j - k)%nat with (S (j - S k)) in Hn by lia. cbn [nth_error] in Hn.
+        destruct (IH (i :: seen) (S k) a'' j b idx Hp Hn Hj) as [[<-|H]|H].
+        -- right. left. reflexivity.
+        -- left. exact H.
+        -- right. right. right. exact H.
 Qed.
